@@ -18,12 +18,14 @@ View == <<stage, reg, last>>
 None == [none |-> TRUE]
 
 \* ---------------------------------------------------------------- alphabets (dimension 2 unless stated)
-Rows2 == {<<<<1, 0>>, 1>>, <<<<0, 1>>, 0>>, <<<<-1, -1>>, 1>>, <<<<1, 1>>, 2>>, <<<<0, 0>>, 1>>, <<<<0, 0>>, -1>>, <<<<2, -1>>, 0>>}
+Rows2 == {<<<<1, 0>>, 1>>, <<<<0, 1>>, 0>>, <<<<-1, -1>>, 1>>, <<<<1, 1>>, 2>>, <<<<0, 0>>, 1>>, <<<<0, 0>>, -1>>, <<<<2, -1>>, 0>>, <<<<0, 0>>, 0>>}
 PolyOfRows(rs) == A([i \in 1..Len(rs) |-> rs[i][1]], [i \in 1..Len(rs) |-> rs[i][2]], 2)
 Polys2 == {PolyOfRows(<<r>>) : r \in Rows2} \cup {PolyOfRows(<<r, s>>) : r \in Rows2, s \in Rows2 \ {<<<<0, 0>>, 1>>}}
 SmallPolys2 == {PolyOfRows(<<<<<<1, 0>>, 1>>, <<<<0, 1>>, 0>>>>), PolyOfRows(<<<<<<-1, -1>>, 1>>>>), PolyOfRows(<<<<<<0, 0>>, -1>>>>)}
 Vecs2 == {<<1, 0>>, <<-1, 2>>}
-Affs22 == {A(<<<<0, 1>>, <<1, 0>>>>, <<1, -2>>, 2), A(<<<<2, 0>>, <<1, 1>>>>, <<0, 1>>, 2)}
+\* a swap with offset, a shear, a pure translation, a projection (drops y) and a constant map whose value (1, 0) lies on boundaries of Rows2
+Affs22 == {A(<<<<0, 1>>, <<1, 0>>>>, <<1, -2>>, 2), A(<<<<2, 0>>, <<1, 1>>>>, <<0, 1>>, 2), A(<<<<1, 0>>, <<0, 1>>>>, <<1, -2>>, 2),
+           A(<<<<1, 0>>, <<0, 0>>>>, <<0, 0>>, 2), A(<<<<0, 0>>, <<0, 0>>>>, <<1, 0>>, 2)}
 \* invertible integer matrices with integer inverse: <<M, Minv>>
 Unimod == {<<<<<<1, 1>>, <<0, 1>>>>, <<<<1, -1>>, <<0, 1>>>>>>, <<<<<<0, -1>>, <<1, 0>>>>, <<<<0, 1>>, <<-1, 0>>>>>>}
 Orth2 == {<<<<0, -1>>, <<1, 0>>>>, <<<<-1, 0>>, <<0, 1>>>>, <<<<0, 1>>, <<1, 0>>>>}
